@@ -635,12 +635,17 @@ def build_frame(world, which="train"):
     for feat in world["features"]:
         ser = _column(feat, cols[feat["name"]])
         data[feat["name"]] = ser.values
-    frame = pd.DataFrame(data, index=pd.Index(index))
+    # a default-looking index is a true RangeIndex, as it is for most users
+    if index and all(isinstance(i, int) for i in index) and index == list(range(index[0], index[0] + len(index))):
+        pd_index = pd.RangeIndex(index[0], index[0] + len(index))
+    else:
+        pd_index = pd.Index(index)
+    frame = pd.DataFrame(data, index=pd_index)
     # column order is a property of the world
     order = world.get("column_order")
     if order:
         frame = frame[[c for c in order if c in frame.columns]]
-    target = pd.Series(ys, index=pd.Index(index), name="target")
+    target = pd.Series(ys, index=pd_index, name="target")
     return frame, target
 
 
